@@ -146,8 +146,8 @@ def gen_options(rng, mode):
     o["count"] = rng.choice([None, None, 1, 2, 5, 9])
     o["F"] = rng.choice([None, None, None, "s", "n,s", "q,zz", "t,n", "extra,s", "tags,n"])
     o["X"] = rng.choice([None, None, None, "n", "t", "q,extra", "s"])
-    o["rsrc"] = rng.choice([None, None, "SRC"])
-    o["rcls"] = rng.choice([None, None, "CLS"])
+    o["rsrc"] = rng.choice([None, None, "SRC", ""])
+    o["rcls"] = rng.choice([None, None, "CLS", ""])
     o["multi"] = rng.random() < 0.3
     o["split"] = rng.choice([1, 2, 3, 4])
     o["suffix"] = rng.choice([1, 2, 3])
@@ -480,9 +480,9 @@ def execute(plan, keep_log=False):
             argv += ["-F", opts["F"]]
         if opts["X"]:
             argv += ["-X", opts["X"]]
-        if opts["rsrc"]:
+        if opts["rsrc"] is not None:
             argv += ["--record-source", opts["rsrc"]]
-        if opts["rcls"]:
+        if opts["rcls"] is not None:
             argv += ["--record-classification", opts["rcls"]]
         if opts["multi"]:
             argv += ["--multi-timestamp"]
@@ -577,7 +577,7 @@ def execute(plan, keep_log=False):
 
 def _opt_sig(o):
     return "".join(["s" if o["sel"] else "", "n" if o["no_compile"] else "", "k" if o["skip"] else "", "c" if o["count"] else "", "F" if o["F"] else "", "X" if o["X"] else "",
-                    "S" if o["rsrc"] else "", "C" if o["rcls"] else "", "m" if o["multi"] else ""])  # fmt: skip
+                    "S" if o["rsrc"] is not None else "", "C" if o["rcls"] is not None else "", "m" if o["multi"] else ""])  # fmt: skip
 
 
 def pipeline(source_lists, opts, pred, mode):
